@@ -231,6 +231,14 @@ def run_prune_impl(case):
         return v
     g.opf_accuracy = wacc
     err = None
+    if getattr(case, "preused", False):
+        # the object has been used before, on the very training set it is now asked to prune (fit, then a prediction pass
+        # over the training rows themselves, which flags every sample relevant): prune must start from its own fit
+        try:
+            opf.fit(Xt.copy(), Yt.copy())
+            opf.predict(Xt.copy())
+        except Exception:  # noqa
+            pass
     try:
         opf.prune(Xt, Yt, Xv, Yv, n_iterations=case.n_iter)
     except Exception as ex:  # noqa
@@ -494,6 +502,8 @@ def check(rep, tier, seed):
     while len(cases) < NP and i < 20 * NP:
         i += 1
         case = gen_case(rng, i, tier, for_prune=True)
+        if case is not None:
+            case.preused = (i % 3 == 1)
         if case is None:
             continue
         if i % 5 == 2:
